@@ -88,3 +88,5 @@ open Csproto
 #print axioms Csproto.Bridge.PackedEncFuncs.EncodePackedSInt64_refines
 #print axioms Csproto.Bridge.PackedEncFuncs.EncodePackedSInt32_refines
 #print axioms Csproto.Bridge.EncoderFuncs.EncodeBytes_refines
+#print axioms Csproto.Bridge.PackedEncFuncs.bool_loop
+#print axioms Csproto.Bridge.PackedEncFuncs.EncodePackedBool_refines
